@@ -514,3 +514,97 @@ def unguarded_distance_division(p, term):
         if not guarded:
             return d
     return None
+
+
+LIKE_ALLOC = {"numpy.empty_like", "numpy.zeros_like", "numpy.ones_like", "numpy.full_like"}
+
+
+def inherited_dtype_stores(ctx, rule="RD"):
+    """A buffer allocated with np.*_like(x) and no dtype takes the dtype of x.  Storing into it a value computed from OTHER arrays (a
+    difference with a prediction, a quotient, ...) silently converts that value to x's dtype: for integer x the fractional part is cut
+    off.  (An allocation that names a floating dtype, or the promoted np.result_type, is fine.)"""
+    for qn in scope(ctx):
+        fa = ctx.an.fa(qn)
+        if not fa.ok:
+            continue
+        bad = None
+        for fx in [fa] + list(fa.nested.values()):
+            for p in fx.paths:
+                for e in p.events:
+                    if e.kind != "store":
+                        continue
+                    base, val = e.data[0], e.data[2]
+                    while base[0] == "sub":
+                        base = base[1]
+                    while base[0] in ("prev", "mu"):
+                        base = base[3]
+                    alloc = base
+                    if base[0] == "elem":                     # an element of a comprehension of allocations
+                        seq = Q.unseq(base[1])
+                        alloc = seq[2] if seq[0] == "comp" else base
+                    if not (alloc[0] == "call" and callee(alloc) in LIKE_ALLOC and alloc[2]):
+                        continue
+                    dt = Q.arg_kw(alloc, "dtype")
+                    if dt is None and len(alloc[2]) > (2 if callee(alloc) == "numpy.full_like" else 1):
+                        dt = alloc[2][2 if callee(alloc) == "numpy.full_like" else 1]
+                    if dt is not None:
+                        continue
+                    proto = Q.unwrap(alloc[2][0])
+                    # the prototype must be (derived from) a caller's array, and the stored value must involve something else than it
+                    if not any(x[0] == "param" for x in walk(proto) if isinstance(x, tuple) and x):
+                        continue
+                    others = [x for x in walk(val) if isinstance(x, tuple) and x and x[0] == "call" and x[1][0] == "attr" and x[1][1] == Q.SELF]
+                    divides = any(x[0] == "binop" and x[1] == "/" for x in walk(val) if isinstance(x, tuple) and x)
+                    if (others or divides) and not is_const(val):
+                        bad = bad or ("%s takes the dtype of %s but receives %s" % (show(alloc)[:50], show(proto)[:40], show(val)[:60]), e.line)
+        ctx.check(rule, qn + "|no-store-into-a-buffer-of-inherited-dtype", False if bad else True, "no computed value is stored into a *_like buffer that inherits a caller's dtype", fn=qn, nontrivial=False,
+                  bad=(bad[0] + ": for integer input the values are truncated") if bad else "", line=bad[1] if bad else None)
+
+
+def late_binding_closures(ctx, rule="RL"):
+    """A lambda / nested function created once per iteration of a comprehension or loop, whose body reads the iteration variable as a free
+    variable and which is kept as an element of the container being built (dict / list / set value) or appended to one, sees the LAST value
+    of that variable when it is finally called: every stored function behaves like the one of the last iteration."""
+    import ast
+
+    def free_reads(fn_node):
+        bound = {a.arg for a in fn_node.args.args + fn_node.args.kwonlyargs + fn_node.args.posonlyargs}
+        if fn_node.args.vararg:
+            bound.add(fn_node.args.vararg.arg)
+        if fn_node.args.kwarg:
+            bound.add(fn_node.args.kwarg.arg)
+        body = fn_node.body if isinstance(fn_node.body, list) else [fn_node.body]
+        out = set()
+        for b in body:
+            for x in ast.walk(b):
+                if isinstance(x, ast.Name) and isinstance(x.ctx, ast.Load) and x.id not in bound:
+                    out.add(x.id)
+        return out
+
+    def targets(t):
+        return {x.id for x in ast.walk(t) if isinstance(x, ast.Name)}
+
+    for qn in scope(ctx):
+        f = ctx.pkg.functions[qn]
+        bad = None
+        for node in ast.walk(f.node):
+            kept = []
+            if isinstance(node, (ast.DictComp, ast.ListComp, ast.SetComp)):
+                loopvars = set().union(*[targets(g.target) for g in node.generators])
+                elts = [node.value] if isinstance(node, ast.DictComp) else [node.elt]
+                for e in elts:
+                    cands = [e] if isinstance(e, ast.Lambda) else ([x for x in e.elts if isinstance(x, ast.Lambda)] if isinstance(e, (ast.Tuple, ast.List)) else [])
+                    kept += [(c, loopvars) for c in cands]
+            elif isinstance(node, ast.For):
+                loopvars = targets(node.target)
+                for st in ast.walk(node):
+                    if isinstance(st, ast.Assign) and isinstance(st.targets[0], ast.Subscript) and isinstance(st.value, ast.Lambda):
+                        kept.append((st.value, loopvars))
+                    if isinstance(st, ast.Call) and isinstance(st.func, ast.Attribute) and st.func.attr in ("append", "add", "setdefault") and st.args and isinstance(st.args[-1], ast.Lambda):
+                        kept.append((st.args[-1], loopvars))
+            for lam, loopvars in kept:
+                late = free_reads(lam) & loopvars
+                if late:
+                    bad = bad or ("a lambda stored per iteration reads the iteration variable %s when it is called: every stored function uses the value of the last iteration" % sorted(late), lam.lineno)
+        ctx.check(rule, qn + "|no-late-binding-closure", False if bad else True, "no function stored per iteration closes over the iteration variable", fn=qn, nontrivial=False,
+                  bad=bad[0] if bad else "", line=bad[1] if bad else None)
